@@ -11,9 +11,21 @@ PROPS = ('C01', 'C05', 'C10', 'C11', 'C15', 'C16')
 MUTATORS_NOT_JUDGED_C15 = ('new_task', 'new_wbs', 'clone', 'subtree', 'acquire', 'observe', 'w_setattr')
 
 
-def named(op, world):
-    """every task / WBS name an operation mentions (for the frame and independence checks)"""
+def named(op, world, S=None):
+    """every task / WBS name an operation mentions (for the frame and independence checks); for a bulk operation
+    through a query that includes the tasks the query selects"""
     out = set()
+    q = op.get('q')
+    if q and not q.get('h') and S is not None:
+        src = None
+        if q['what'] in ('children', 'roots'):
+            src = S['wbs'][q['on']]['roots'] if q['on'] in S['wbs'] else S['tasks'].get(q['on'], {}).get('children')
+        elif q['what'] in ('tasks', 'all_children'):
+            src = gm.dfs(S, S['wbs'][q['on']]['roots']) if q['on'] in S['wbs'] else (
+                gm.descendants(S, q['on']) if q['on'] in S['tasks'] else None)
+        for m in src or []:
+            if q.get('ids') is None or S['tasks'][m]['id'] in set(q['ids']):
+                out.add(m)
 
     def add(x):
         if isinstance(x, str):
@@ -152,7 +164,7 @@ class Run:
             w.step = i
             sig_shape = shape_of(op, S0, w)
             stale = 'stale-handle' in sig_shape
-            names = named(op, w)
+            names = named(op, w, S0)
             out = w.execute(op)
             S1 = snapshot(w)
             h = core.hash64(rel_part(S1))
